@@ -1684,6 +1684,8 @@ func (m *Machine) recoverToErr(handler *handler, r recoveryData) {
 	// dont double handle an exception (no nesting)
 	mut := t.Mutation
 	if mut.IsCalled(iException) {
+		// the handler loop is gone with the panic, restart it
+		go m.handlerLoop()
 		return
 	}
 
